@@ -148,90 +148,51 @@ Qed.
 
 Lemma prewrap_facts T v : 0 < it_bits T -> - 2 ^ (BN_BITS - 1) <= v < 2 ^ (BN_BITS - 1) -> it_bits T <= 128 ->
   let n := nl_prewrap T v in
-  wrap_T T n = wrap_T T v /\
-  (it_signed T = false -> 0 <= n <= it_max T) /\
-  (it_signed T = true -> it_inrange T n = true \/ (- 2 ^ it_bits T < n < 2 ^ it_bits T)).
+  wrap_T T n = wrap_T T v /\ it_inrange T n = true.
 Proof.
   intros Hb Hv H128. cbn zeta.
   assert (HP : 0 < 2 ^ it_bits T) by (apply Z.pow_pos_nonneg; lia).
   assert (HPle : 2 ^ it_bits T <= 2 ^ 128) by (apply Z.pow_le_mono_r; lia).
   change (2 ^ 128) with 340282366920938463463374607431768211456 in HPle.
+  destruct (pow2_split _ Hb) as [Hp Hh].
   unfold nl_prewrap, nl_wrap_value.
   destruct (it_inrange T v) eqn:Ein.
-  - (* already in range: untouched (for an unsigned type a negative value is never in range) *)
-    assert (Hnn : it_signed T = false -> 0 <= v).
-    { intros Es. unfold it_inrange, it_min in Ein. rewrite Es in Ein. lia. }
-    assert (E : (if negb (it_signed T) && (v <? 0) || negb true then v else v) = v) by (destruct (_ || _); reflexivity).
-    rewrite E. split; [reflexivity|]. split.
-    + intros Es. unfold it_inrange, it_min in Ein. rewrite Es in Ein. lia.
-    + intros _. left. exact Ein.
-  - rewrite orb_true_r.
+  - assert (E : (if negb (it_signed T) && (v <? 0) || negb true then v else v) = v) by (destruct (_ || _); reflexivity).
+    rewrite E. split; [reflexivity|exact Ein].
+  - rewrite orb_true_r. unfold bwrap.
+    pose proof (Z.mod_pos_bound v (2 ^ it_bits T) HP) as Hm.
     destruct (it_signed T) eqn:Es; cbn [andb].
-    + destruct (Z.ltb_spec (it_max T) v) as [Hgt|Hle].
-      * (* above the maximum: -bwrap(-v) *)
-        assert (E1 : bn_wrap (- v) = - v).
-        { apply bn_wrap_id. unfold it_max in Hgt. rewrite Es in Hgt.
-          assert (0 < 2 ^ (it_bits T - 1)) by (apply Z.pow_pos_nonneg; lia). bn_consts. lia. }
-        rewrite E1. unfold bwrap.
-        pose proof (Z.mod_pos_bound (- v) (2 ^ it_bits T) HP) as Hm.
-        assert (E2 : bn_wrap (- ((- v) mod 2 ^ it_bits T)) = - ((- v) mod 2 ^ it_bits T)).
+    + destruct (Z.ltb_spec (it_max T) (v mod 2 ^ it_bits T)) as [Hgt|Hle].
+      * assert (E2 : bn_wrap (v mod 2 ^ it_bits T - 2 ^ it_bits T) = v mod 2 ^ it_bits T - 2 ^ it_bits T).
         { apply bn_wrap_id. bn_consts. lia. }
-        rewrite E2. split; [|split; [discriminate|intros _; right; lia]].
-        apply wrap_T_eqm; [exact Hb|].
-        replace (- ((- v) mod 2 ^ it_bits T)) with (0 - (- v) mod 2 ^ it_bits T) by lia.
-        rewrite Zminus_mod_idemp_r. f_equal. lia.
-      * (* below the minimum: bwrap(v) *)
-        unfold bwrap. pose proof (Z.mod_pos_bound v (2 ^ it_bits T) HP) as Hm.
-        split; [|split; [discriminate|intros _; right; lia]].
-        apply wrap_T_eqm; [exact Hb|]. apply Z.mod_mod. lia.
-    + unfold bwrap. pose proof (Z.mod_pos_bound v (2 ^ it_bits T) HP) as Hm.
-      split; [|split; [|discriminate]].
-      * apply wrap_T_eqm; [exact Hb|]. apply Z.mod_mod. lia.
-      * intros _. unfold it_max. rewrite Es. lia.
+        rewrite E2. split.
+        -- apply wrap_T_eqm; [exact Hb|].
+           replace (v mod 2 ^ it_bits T - 2 ^ it_bits T) with (v mod 2 ^ it_bits T + (-1) * 2 ^ it_bits T) by lia.
+           rewrite Z.mod_add by lia. apply Z.mod_mod. lia.
+        -- unfold it_inrange, it_min, it_max in *. rewrite Es in *. lia.
+      * split; [apply wrap_T_eqm; [exact Hb|apply Z.mod_mod; lia]|].
+        unfold it_inrange, it_min, it_max in *. rewrite Es in *. lia.
+    + split; [apply wrap_T_eqm; [exact Hb|apply Z.mod_mod; lia]|].
+      unfold it_inrange, it_min, it_max. rewrite Es. lia.
 Qed.
 
 (* ---- the property: the emitted constant, typed by C, converted to the target type ---- *)
-Definition literal_roundtrip : Prop :=
-  forall T v base, In T all_int_types -> it_bits T <= 64 ->
-    - 2 ^ (BN_BITS - 1) <= v < 2 ^ (BN_BITS - 1) ->
-    exists w val, c_eval (nl_emit T v base) = Some ((w, it_signed T), val) /\ c_convert T val = wrap_T T v.
-
-(* false today: int64, 2^64 + 5 (only reachable through folded constants, see C02) *)
-Lemma literal_roundtrip_refuted : ~ literal_roundtrip.
-Proof.
-  intros H. destruct (H (mk_itype 64 true 0) 18446744073709551621 16) as (w & val & E & _).
-  - vm_compute. tauto.
-  - cbn. lia.
-  - bn_consts. lia.
-  - vm_compute in E. discriminate.
-Qed.
-
-(* true whenever the code's wrap_value lands inside the type, and for every type narrower than 64 bits *)
-Lemma literal_roundtrip_partial T v base : In T all_int_types -> it_bits T <= 64 ->
+(* after 59c538f: for every integral type up to 64 bits, every value the compiler's big numbers can hold and
+   every base, the emitted token has a C type of the signedness of T and denotes wrap_T(v) exactly *)
+Theorem literal_roundtrip T v base : In T all_int_types -> it_bits T <= 64 ->
   - 2 ^ (BN_BITS - 1) <= v < 2 ^ (BN_BITS - 1) ->
-  it_bits T < 64 \/ it_signed T = false \/ it_inrange T (nl_prewrap T v) = true ->
-  exists w val, c_eval (nl_emit T v base) = Some ((w, it_signed T), val) /\ c_convert T val = wrap_T T v.
+  exists w val, c_eval (nl_emit T v base) = Some ((w, it_signed T), val) /\ val = wrap_T T v /\ c_convert T val = wrap_T T v.
 Proof.
-  intros Hin Hb Hv Hgood.
+  intros Hin Hb Hv.
   pose proof (type_width T Hin Hb) as Hw.
   assert (Hb0 : 0 < it_bits T) by lia.
-  destruct (prewrap_facts T v Hb0 Hv ltac:(lia)) as (Hcong & Hu & Hs). cbn zeta in *.
+  destruct (prewrap_facts T v Hb0 Hv ltac:(lia)) as (Hcong & Hr). cbn zeta in *.
   set (n := nl_prewrap T v) in *.
-  assert (Hmin : it_signed T = true -> -9223372036854775808 <= it_min T <= -128).
-  { intros Es. unfold it_min. rewrite Es. destruct Hw as [-> | [-> | [-> | ->]]]; cbn; lia. }
-  assert (Hmax : it_max T <= 18446744073709551615).
-  { unfold it_max. destruct (it_signed T); destruct Hw as [-> | [-> | [-> | ->]]]; cbn; lia. }
+  assert (Hn : wrap_T T v = n) by (rewrite <- Hcong; apply wrap_T_id; assumption).
   destruct (emit_from_eval T n base) as [w E].
-  - intros Es. specialize (Hs Es). specialize (Hmin Es).
-    assert (Hrange : -9223372036854775808 <= n <= 9223372036854775807 /\ (n = -9223372036854775808 -> n = it_min T)).
-    { destruct Hs as [Hin'|Hout].
-      - unfold it_inrange, it_min, it_max in *. rewrite Es in *.
-        destruct Hw as [Ew|[Ew|[Ew|Ew]]]; rewrite Ew in *; cbn in *; lia.
-      - destruct Hgood as [Hlt|[Hf|Hin']]; [|congruence|].
-        + destruct Hw as [Ew|[Ew|[Ew|Ew]]]; rewrite Ew in *; cbn in *; lia.
-        + unfold it_inrange, it_min, it_max in *. rewrite Es in *.
-          destruct Hw as [Ew|[Ew|[Ew|Ew]]]; rewrite Ew in *; cbn in *; lia. }
-    tauto.
-  - intros Es. specialize (Hu Es). lia.
-  - exists w, n. split; [exact E|]. unfold c_convert. exact Hcong.
+  - intros Es. unfold it_inrange, it_min, it_max in *. rewrite Es in *.
+    destruct Hw as [Ew|[Ew|[Ew|Ew]]]; rewrite Ew in *; cbn in *; lia.
+  - intros Es. unfold it_inrange, it_min, it_max in *. rewrite Es in *.
+    destruct Hw as [Ew|[Ew|[Ew|Ew]]]; rewrite Ew in *; cbn in *; lia.
+  - exists w, n. split; [exact E|]. split; [symmetry; exact Hn|]. unfold c_convert. exact Hcong.
 Qed.
